@@ -1,5 +1,5 @@
-(* Props/C14Known.v — regressions.  Every flag of the model describes a defect that has been repaired in /repo
-   (b20520c, 27377de, 9c8f928, bbae54e); none is claimed in Actual/CollectActual.v any more.  For each former
+(* Props/C14Known.v — one refutation (the flag still claimed in Actual/CollectActual.v) and regressions.  The other seven
+   flags describe defects that have been repaired in /repo (b20520c, 27377de, 9c8f928, bbae54e).  For each former
    witness: the claimed vector (which runs the functions generated from the current source) now meets the
    specification on it, and the model with that one flag switched on still reproduces the old defect (so the
    flag keeps its meaning).  The same projects are in corpus/C14 and must pass on the implementation. *)
@@ -11,53 +11,67 @@ Definition root_abs : list string := ["/"; "w"; "proj"].
 (* a project that lives under a directory called build *)
 Definition w_above : tree := Dir "" [File "a.py"].
 Theorem C14_excl_above_root_regression :
-  run_dir collect_actual true ["/"; "w"; "build"; "proj"] [] w_above (render_sources no_sources) = spec_dir true [] w_above no_sources
-  /\ run_dir (with_flag 0 collect_actual) true ["/"; "w"; "build"; "proj"] [] w_above (render_sources no_sources) <> spec_dir true [] w_above no_sources.
+  run_dir collect_actual true ["/"; "w"; "build"; "proj"] SAbs [] w_above (render_sources no_sources) = spec_dir true [] w_above no_sources
+  /\ run_dir (with_flag 0 collect_actual) true ["/"; "w"; "build"; "proj"] SAbs [] w_above (render_sources no_sources) <> spec_dir true [] w_above no_sources.
 Proof. vm_compute. split; [reflexivity|discriminate]. Qed.
 
 (* a regular file called build *)
 Definition w_fname : tree := Dir "" [File "build"; File "a.py"].
 Theorem C14_excl_filename_regression :
-  run_dir collect_actual true root_abs [] w_fname (render_sources no_sources) = spec_dir true [] w_fname no_sources
-  /\ run_files collect_actual root_abs (render_sources no_sources) [["build"]] = spec_files no_sources [["build"]]
-  /\ run_dir (with_flag 1 collect_actual) true root_abs [] w_fname (render_sources no_sources) <> spec_dir true [] w_fname no_sources.
+  run_dir collect_actual true root_abs SAbs [] w_fname (render_sources no_sources) = spec_dir true [] w_fname no_sources
+  /\ run_files collect_actual root_abs SAbs (render_sources no_sources) [["build"]] = spec_files no_sources [["build"]]
+  /\ run_dir (with_flag 1 collect_actual) true root_abs SAbs [] w_fname (render_sources no_sources) <> spec_dir true [] w_fname no_sources.
 Proof. vm_compute. repeat split; try reflexivity; discriminate. Qed.
 
 (* "legacy/" next to legacy2/e.py and legacy_x.py *)
 Definition w_prefix : tree := Dir "" [Dir "legacy" [File "d.py"]; Dir "legacy2" [File "e.py"]; File "legacy_x.py"; File "a.py"].
 Definition s_prefix : tsources := Build_tsources (Some [LPat 0 0 (PDir "legacy")]) (Some []) None.
 Theorem C14_dirpat_prefix_regression :
-  run_dir collect_actual true root_abs [] w_prefix (render_sources s_prefix) = spec_dir true [] w_prefix s_prefix
-  /\ run_dir (with_flag 2 collect_actual) true root_abs [] w_prefix (render_sources s_prefix) <> spec_dir true [] w_prefix s_prefix.
+  run_dir collect_actual true root_abs SAbs [] w_prefix (render_sources s_prefix) = spec_dir true [] w_prefix s_prefix
+  /\ run_dir (with_flag 2 collect_actual) true root_abs SAbs [] w_prefix (render_sources s_prefix) <> spec_dir true [] w_prefix s_prefix.
 Proof. vm_compute. split; [reflexivity|discriminate]. Qed.
 
 (* "vendor/" and a regular file called vendor *)
 Definition w_dfile : tree := Dir "" [Dir "src" [File "vendor"; File "a.py"]].
 Definition s_dfile : tsources := Build_tsources None (Some [PDir "vendor"]) None.
 Theorem C14_dirpat_filename_regression :
-  run_dir collect_actual true root_abs [] w_dfile (render_sources s_dfile) = spec_dir true [] w_dfile s_dfile
-  /\ run_dir (with_flag 3 collect_actual) true root_abs [] w_dfile (render_sources s_dfile) <> spec_dir true [] w_dfile s_dfile.
+  run_dir collect_actual true root_abs SAbs [] w_dfile (render_sources s_dfile) = spec_dir true [] w_dfile s_dfile
+  /\ run_dir (with_flag 3 collect_actual) true root_abs SAbs [] w_dfile (render_sources s_dfile) <> spec_dir true [] w_dfile s_dfile.
 Proof. vm_compute. split; [reflexivity|discriminate]. Qed.
 
 (* "**/*_constants.py" and "**/gen/" at the top level *)
 Definition w_dstar : tree := Dir "" [File "my_constants.py"; Dir "src" [File "t_constants.py"]; Dir "gen" [File "g.py"]; File "a.py"].
 Definition s_dstar : tsources := Build_tsources (Some [LPat 0 0 (PAnySuffix "_constants.py"); LPat 0 0 (PAnyDir "gen")]) (Some []) None.
 Theorem C14_doublestar_regression :
-  run_dir collect_actual true root_abs [] w_dstar (render_sources s_dstar) = spec_dir true [] w_dstar s_dstar
-  /\ run_dir (with_flag 4 collect_actual) true root_abs [] w_dstar (render_sources s_dstar) <> spec_dir true [] w_dstar s_dstar.
+  run_dir collect_actual true root_abs SAbs [] w_dstar (render_sources s_dstar) = spec_dir true [] w_dstar s_dstar
+  /\ run_dir (with_flag 4 collect_actual) true root_abs SAbs [] w_dstar (render_sources s_dstar) <> spec_dir true [] w_dstar s_dstar.
 Proof. vm_compute. split; [reflexivity|discriminate]. Qed.
 
 (* a .thailintignore next to a config ignore list *)
 Definition w_both : tree := Dir "" [File "a.py"; File "b.txt"; File "c.md"].
 Definition s_both : tsources := Build_tsources (Some [LPat 0 0 (PSuffix ".txt")]) (Some [PSuffix ".py"]) None.
 Theorem C14_ti_shadows_config_regression :
-  run_dir collect_actual true root_abs [] w_both (render_sources s_both) = spec_dir true [] w_both s_both
-  /\ run_dir (with_flag 5 collect_actual) true root_abs [] w_both (render_sources s_both) <> spec_dir true [] w_both s_both.
+  run_dir collect_actual true root_abs SAbs [] w_both (render_sources s_both) = spec_dir true [] w_both s_both
+  /\ run_dir (with_flag 5 collect_actual) true root_abs SAbs [] w_both (render_sources s_both) <> spec_dir true [] w_both s_both.
 Proof. vm_compute. split; [reflexivity|discriminate]. Qed.
 
 (* the ignore list of .thailint.json *)
 Definition s_json : tsources := Build_tsources None None (Some [PSuffix ".py"]).
 Theorem C14_json_ignore_unused_regression :
-  run_dir collect_actual true root_abs [] w_both (render_sources s_json) = spec_dir true [] w_both s_json
-  /\ run_dir (with_flag 6 collect_actual) true root_abs [] w_both (render_sources s_json) <> spec_dir true [] w_both s_json.
+  run_dir collect_actual true root_abs SAbs [] w_both (render_sources s_json) = spec_dir true [] w_both s_json
+  /\ run_dir (with_flag 6 collect_actual) true root_abs SAbs [] w_both (render_sources s_json) <> spec_dir true [] w_both s_json.
 Proof. vm_compute. split; [reflexivity|discriminate]. Qed.
+
+(* STILL PRESENT.  Working directory proj/sub, target "." : the config ignores "sub/deep/" and "other/**", but the files are
+   matched in their cwd-relative spelling (deep/y.py), so sub/deep/y.py is linted; likewise ../other from there.
+   With the flag switched off the model meets the specification. *)
+Definition w_spell : tree := Dir "" [File "a.py"; Dir "sub" [File "x.py"; Dir "deep" [File "y.py"]]; Dir "other" [File "z.py"]].
+Definition w_spell_sub : tree := Dir "sub" [File "x.py"; Dir "deep" [File "y.py"]].
+Definition s_spell : tsources := Build_tsources None (Some [PDirPath ["sub"; "deep"]; PUnder ["other"]]) None.
+Theorem C14_ignore_cwd_spelling_refuted :
+  run_dir collect_actual true [] (SInside ["sub"]) ["sub"] w_spell_sub (render_sources s_spell) <> spec_dir true ["sub"] w_spell_sub s_spell
+  /\ run_dir collect_actual true [] (SInside ["sub"]) ["other"] (Dir "other" [File "z.py"]) (render_sources s_spell) <> spec_dir true ["other"] (Dir "other" [File "z.py"]) s_spell
+  /\ run_dir collect_actual true ["proj"] (SAbove ["proj"]) [] w_spell (render_sources s_spell) <> spec_dir true [] w_spell s_spell
+  /\ run_dir (with_flag 7 collect_actual) true [] (SInside ["sub"]) ["sub"] w_spell_sub (render_sources s_spell) = spec_dir true ["sub"] w_spell_sub s_spell
+  /\ run_dir collect_actual true [] (SInside []) ["sub"] w_spell_sub (render_sources s_spell) = spec_dir true ["sub"] w_spell_sub s_spell.
+Proof. vm_compute. repeat split; try discriminate; reflexivity. Qed.
